@@ -60,6 +60,14 @@ TEMPLATES = [
     "@P(1, DECO('a'))\nclass A(P(2, Bs), P(3, Bs2), metaclass=P(4, Mt)):\n    x = P(5)",
     "@P(1, DECO('a'))\n@P(2, DECO('b'))\nclass A(P(3, Bs)):\n    P(4)",
     "class A(P(1, Q), a=P(2, 1), c=P(3, 2)):\n    pass",
+    # a decorated class WITHOUT bases or keywords: decorators first, then the body, then the application
+    "@P(1, DECO('a'))\nclass A:\n    x = P(2, 1)\n    def m(self, d=P(3, 2)):\n        return d",
+    "@P(1, DECO('a'))\n@P(2, DECO('b'))\nclass A():\n    P(3)\n    class In:\n        P(4)",
+    "@P(1, DECO('a'))\nclass A(P(2, Bs)):\n    @P(3, DECO('m'))\n    def m(self):\n        pass\n    P(4)",
+    # a store of a FALSY value as the only statement of a taken branch: the later conditions stay unevaluated
+    "if P(1, 1):\n    x = P(2, 0)\nelif P(3, 1):\n    P(4)\nelse:\n    P(5)",
+    "if P(1, 0):\n    P(2)\nelif P(3, 1):\n    o.a = P(4, None)\nelif P(5, 1):\n    P(6)\nelse:\n    P(7)",
+    "if P(1, 1):\n    b['k'] = P(2, '')\nelse:\n    P(3)\nif P(4, 1):\n    P(5, [])\nelse:\n    P(6)",
     "class A(P(1, Bs)):\n    x = P(2, 1)\n    def m(self, d=P(3, x)):\n        return d\n    y = P(4, m)\nL('m', A().m())",
     "if P(1, 0):\n    P(2)\nelif P(3, 1):\n    P(4)\nelse:\n    P(5)",
     "if P(1, 0):\n    P(2)\nelif P(3, 0):\n    P(4)\nelif P(5, 0):\n    P(6)\nelse:\n    P(7)",
